@@ -380,9 +380,9 @@ skel_nolossy!(c06_v_opret_two, 8, 40, false, kani::any(), [b(0x6a), b(0x01), s(1
 skel!(c06_t_p2pkh_d75, 96, 90, false, false, kani::any(), [b(0x76), b(0xa9), b(0x4b), s(75), b(0x88), b(0xac)]);
 //@ id=C06,C14 tier=thorough name=c06_t_p2pkh_pd1_76 timeout=1500 role=templates bound=P2PKH,PUSHDATA1-76 fsarr=512
 skel!(c06_t_p2pkh_pd1_76, 96, 90, false, false, kani::any(), [b(0x76), b(0xa9), b(0x4c), b(0x4c), s(76), b(0x88), b(0xac)]);
-//@ id=C06,C14 tier=thorough name=c06_t_p2sh_pd1_255 timeout=2400 role=templates bound=P2SH,PUSHDATA1-255 fsarr=512 mem=20
+//@ id=C06,C14 tier=extra name=c06_t_p2sh_pd1_255 timeout=2400 role=templates bound=P2SH,PUSHDATA1-255 fsarr=512 mem=20
 skel_nolossy!(c06_t_p2sh_pd1_255, 272, 270, false, kani::any(), [b(0xa9), b(0x4c), b(0xff), s(255), b(0x87)]);
-//@ id=C06,C14 tier=thorough name=c06_t_p2sh_pd2_256 timeout=2400 role=templates bound=P2SH,PUSHDATA2-256 fsarr=512 mem=20
+//@ id=C06,C14 tier=extra name=c06_t_p2sh_pd2_256 timeout=2400 role=templates bound=P2SH,PUSHDATA2-256 fsarr=512 mem=20
 skel_nolossy!(c06_t_p2sh_pd2_256, 272, 270, false, kani::any(), [b(0xa9), b(0x4d), b(0x00), b(0x01), s(256), b(0x87)]);
 //@ id=C06,C14 tier=thorough name=c06_t_multi_d33 timeout=2400 role=templates bound=2-of-3,33-byte-keys,symbolic fsarr=512
 skel!(c06_t_multi_d33, 112, 40, false, false, kani::any(), [b(0x52), b(0x21), s(33), b(0x21), s(33), b(0x21), s(33), b(0x53), b(0xae)]);
